@@ -153,4 +153,40 @@ def extra_checks(rng, tier, notes):
             kinds[c["kind"]] = kinds.get(c["kind"], 0) + 1
         notes.append(f"{len(cases)} cases {kinds} run in fresh interpreters under PYTHONHASHSEED in {seeds}: "
                      f"{ndiff} seed-dependent")
+    out.extend(order_accept_checks(rng, tier, notes))
+    return out
+
+
+def order_accept_checks(rng, tier, notes):
+    """accept/reject of a face-connection table must not depend on the order in which the same faces (and
+    the axes of a face) are listed -- also for malformed tables"""
+    import itertools
+    from . import c17 as K17
+    out = []
+    n = 60 if tier == "quick" else 600
+    ntab = nperm = 0
+    for _ in range(n):
+        nf = rng.randint(2, 4)
+        t = K17.random_reciprocal(rng, nf)
+        for _k in range(rng.choice([0, 1, 1, 2])):
+            t = K17.edits(rng, t, nf, ("X", "Y"))
+        perms = list(itertools.permutations(range(len(t))))
+        rng.shuffle(perms)
+        outcomes = {}
+        for perm in perms[:24]:
+            tp = [t[i] for i in perm]
+            if rng.random() < 0.5:
+                tp = [[f, list(reversed(fal))] for f, fal in tp]
+            o = K17.run_impl(K17.mk(tp, nfaces=nf))
+            # accept/reject only: WHICH defect of a table with several is reported first may depend
+            # on the order (the property speaks of accept/reject outcomes)
+            outcomes.setdefault("accepted" if o["ok"] else "rejected", tp)
+            nperm += 1
+        ntab += 1
+        if len(outcomes) > 1:
+            (a, ta), (b, tb) = list(outcomes.items())[:2]
+            out.append(({"table_order_1": ta, "table_order_2": tb}, {"outcome_1": a, "outcome_2": b},
+                        f"accept/reject depends on the listing order of the same face links: {ta} -> {a}; {tb} -> {b}"))
+    notes.append(f"{ntab} face-connection tables (reciprocal and edited) constructed in {nperm} listing orders: "
+                 f"{len(out)} order-dependent")
     return out
